@@ -102,6 +102,10 @@ func decompress(source []byte) (dest []byte, err error) {
 	// compressed length and up to 256 times the compressed length: an LZ4 block cannot expand by more than a
 	// factor of 255, so the last attempt is always large enough for a well-formed block
 	compressedLength := len(source)
+	if compressedLength == 1 && source[0] == 0 {
+		// a single zero token is what Compress produces for the empty message
+		return []byte{}, nil
+	}
 	var written int
 	for i := compressedLength * 2; i <= compressedLength*256; i *= 2 {
 		dest = make([]byte, i)
